@@ -1,15 +1,72 @@
 (* C05 — pinned property theorems about the dial bookkeeping of the manager model (coq/Mgr).
    Statements, `exact`, Print Assumptions only.
 
-   Status: these are per-handler theorems (each holds for every manager state and every
-   configuration). The history-level ledger ("every accepted attempt has exactly one outcome on
-   every feasible event sequence, and no peer is wedged at quiescence") is decided on the
-   implementation's traces by the oracle prop_ok_C05 (coq/Mgr/Glue.v) over generated and settled
-   histories; its inductive proof over all histories is not finished — see DESIGN.md, C05. *)
+   Two groups: history-level theorems (the dial ledger as an inductive invariant over every
+   feasible event history: at most one outcome per attempt, no silence and no wedged peer at
+   quiescence) and per-handler theorems (hold for every manager state and configuration). *)
 From Coq Require Import List NArith Bool.
-From V.Mgr Require Import Model Caps Ledger.
+From V.Mgr Require Import Model Caps Ledger LedgerInv.
 Import ListNotations.
 Open Scope N_scope.
+
+
+(* ---- the dial ledger over histories (coq/Mgr/LedgerInv.v) ---- *)
+
+(* the ledger invariant is preserved by every event the transport contract allows, for every
+   limit configuration *)
+Theorem C05_ledger_invariant_step :
+  forall L m g e, LInv m g -> feas m g e -> LInv (fst (step L m e)) (gstep e (snd (step L m e)) g).
+Proof. exact linv_step. Qed.
+Print Assumptions C05_ledger_invariant_step.
+
+(* never both, never a duplicate: on any feasible history no connection id is named by two
+   terminal outputs (ConnectionEstablished / DialFailure / OpenFailure) *)
+Theorem C05_at_most_one_outcome :
+  forall L es, feasible L init g0 es -> NoDup (terminals L init es).
+Proof. exact at_most_one_outcome. Qed.
+Print Assumptions C05_at_most_one_outcome.
+
+(* never silence: at quiescence every accepted attempt was named by a terminal output, or was
+   superseded by a reported connection with the same peer, or is the recorded finding
+   (outbound connection rejected by the connection limit at establishment) *)
+Theorem C05_no_silence :
+  forall L es, feasible L init g0 es ->
+  let '(m, g) := lrun L init g0 es in
+  quiescent m g ->
+  forall c p, lookup c (g_att g) = Some p ->
+    In c (g_done g) \/ (In c (g_super g) /\ In p (g_rep g)) \/ In c (g_limrej g).
+Proof. exact no_silence. Qed.
+Print Assumptions C05_no_silence.
+
+(* never a stuck peer: at quiescence every peer is connected or fully disconnected *)
+Theorem C05_no_wedge :
+  forall L es, feasible L init g0 es ->
+  let '(m, g) := lrun L init g0 es in
+  quiescent m g -> forall p, settled (state_of m p).
+Proof. exact no_wedge. Qed.
+Print Assumptions C05_no_wedge.
+
+(* at every point of every feasible history a peer that waits for an attempt is owed an answer *)
+Theorem C05_pending_is_owed :
+  forall L es, feasible L init g0 es ->
+  let '(m, g) := lrun L init g0 es in
+  forall p c, dial_record (state_of m p) = Some c -> owed g c.
+Proof. exact pending_is_owed. Qed.
+Print Assumptions C05_pending_is_owed.
+
+(* non-vacuity: a feasible history with an outbound dial raced by an inbound connection, a
+   failed dial and a re-dial; it ends quiescent with three attempts, two of them reported *)
+Example C05_feasible_history :
+  let L := mkLimits (Some 2) (Some 2) in
+  let es := [CmdAddAddr 1; CmdDialPeer 1 false; AllocConn; TrEstablished 1 1 true false;
+             AcceptDone 1 true; CmdDialAddr 2 false; TrDialFailure 2 2; CmdDialAddr 2 false;
+             TrEstablished 2 3 false false; AcceptDone 3 true] in
+  feasible L init g0 es /\
+  (let '(m, g) := lrun L init g0 es in
+   quiescent m g /\ map fst (g_att g) = [3; 2; 0] /\ g_done g = [3; 2; 1] /\ g_super g = [0]).
+Proof. vm_compute. repeat split; auto. Qed.
+
+(* ---- per-handler theorems ---- *)
 
 (* once a peer has no open connection and no owed attempt, a dial is actually attempted *)
 Theorem C05_redial_attempted :
